@@ -44,9 +44,12 @@ def dump (σ : Store) : String :=
     match σ d.id f with | none => "N" | some k => toString k)
 
 def step (line : String) : String :=
-  match parseProg ((line.splitOn " ").filter (· ≠ "")) with
+  -- first token: "S" (warnings escalated to errors) or "L" (lenient)
+  let toks := (line.splitOn " ").filter (· ≠ "")
+  let strict := toks.head? == some "S"
+  match parseProg (toks.drop 1) with
   | some (p, []) =>
-    let r := p.run (initialStore classes) []
+    let r := p.run strict (initialStore classes) []
     s!"raised={if r.raised then 1 else 0};final={dump r.store};trace=" ++ "|".intercalate (r.trace.reverse.map dump)
   | _ => "bad-program"
 
